@@ -103,3 +103,33 @@ Theorem C18_listing_covers_tables :
          (tab q a = Accept -> In (0, 1) (items (st (t_aut t) q)) /\ a = eof).
 Proof. exact DrawPipeline.pipeline_table_within_listing. Qed.
 Print Assumptions C18_listing_covers_tables.
+
+From YG Require Import EscapeDot.
+Close Scope Z_scope.
+Open Scope nat_scope.
+
+(* the model of EscapeDotGraph (the repair of F25): the escaped text of a name reads back as the name *)
+Theorem C18_escape_roundtrip :
+  forall s : list Ascii.ascii, unescape (escape s) = s.
+Proof. exact EscapeDot.unescape_escape. Qed.
+Print Assumptions C18_escape_roundtrip.
+
+From YG Require Import EscapeDot.
+Close Scope Z_scope.
+Open Scope nat_scope.
+
+(* every character with a meaning inside a record label (backslash, quote, angle brackets, braces, bar) is protected in the escaped text *)
+Theorem C18_escape_protected :
+  forall s : list Ascii.ascii, protected (escape s) = true.
+Proof. exact EscapeDot.escape_protected. Qed.
+Print Assumptions C18_escape_protected.
+
+From YG Require Import EscapeDot.
+Close Scope Z_scope.
+Open Scope nat_scope.
+
+(* the fields of a record label - items, reduce lines - are read back one by one whatever characters the symbol names contain (C18_label_injective needed names without the separator) *)
+Theorem C18_label_fields :
+  forall l : list (list Ascii.ascii), l <> [] -> map unescape (splitp (joinbar (map escape l)) []) = l.
+Proof. exact EscapeDot.split_escaped_fields. Qed.
+Print Assumptions C18_label_fields.
